@@ -79,6 +79,9 @@ def setup(classes):
     return U
 
 
+CONSTRUCTED = []   # (class, id) of every harness-class object built, in construction order (the entry-point route reads it)
+
+
 def _make_generic(cname, slots, U, base, selfreg=None):
     class V(base):
         _slots = slots
@@ -87,6 +90,7 @@ def _make_generic(cname, slots, U, base, selfreg=None):
         def __init__(self, id_, kids):
             self.id = id_
             self.kids = kids
+            CONSTRUCTED.append((type(self).__name__, id_))
 
         @classmethod
         def from_json(cls, data, dic):
@@ -208,6 +212,75 @@ def real_pipeline(U, spec):
     finally:
         root.handlers[:] = old_handlers
         root.level = old_level
+
+
+def main_route(spec):
+    """the specification through the PUBLIC ENTRY POINT torchtree.torchtree.main (`torchtree --dry file.json`), in-process:
+    -> (accepted, [(class, id) of the harness-class objects built, in order], what was logged / raised).
+    Nothing of main is looked into: the harness classes themselves record that they were constructed."""
+    import io
+    import contextlib
+    import os
+    import sys
+    import tempfile
+
+    import torch
+    import torchtree.torchtree as TT
+
+    fd, path = tempfile.mkstemp(prefix="c13-main-", suffix=".json")
+    with os.fdopen(fd, "w") as fp:
+        json.dump(spec, fp)
+    cap = _Cap()
+    root = logging.getLogger()
+    old_handlers, old_level = root.handlers[:], root.level
+    root.handlers[:] = [cap]
+    old_argv, old_dtype = sys.argv, torch.get_default_dtype()
+    del CONSTRUCTED[:]
+    raised = None
+    try:
+        sys.argv = ["torchtree", path, "--dry"]
+        with contextlib.redirect_stdout(io.StringIO()), contextlib.redirect_stderr(io.StringIO()):
+            try:
+                TT.main()
+            except SystemExit as e:
+                raised = f"SystemExit({e.code})"
+            except Exception as e:  # noqa: BLE001
+                raised = f"{type(e).__name__}: {e}"[:160]
+    finally:
+        sys.argv = old_argv
+        torch.set_default_dtype(old_dtype)
+        root.handlers[:] = old_handlers
+        root.level = old_level
+        try:
+            os.unlink(path)
+        except OSError:
+            pass
+    logged = [str(m)[:160] for m in cap.msgs if isinstance(m, Exception)]
+    built = list(CONSTRUCTED)
+    del CONSTRUCTED[:]
+    return (raised is None and not logged), built, (raised or (logged[-1] if logged else None))
+
+
+def entry_point_violations(U, spec, real):
+    """the property through the entry point: (i) main(spec) builds exactly what main(spec without its comments) builds - same
+    acceptance, same harness-class objects in the same order: underscore keys and ignored objects (ignored PLATES included)
+    have no effect; (ii) it agrees with the helper pipeline remove_comments -> expand_plates -> process_objects the rest of
+    this check drives (acceptance, objects built)"""
+    bad = []
+    acc, built, why = main_route(spec)
+    stripped = strip_comments(copy.deepcopy(spec))
+    if json.dumps(stripped) != json.dumps(spec):
+        acc0, built0, why0 = main_route(stripped)
+        if acc != acc0 or built != built0:
+            bad.append(("comment-has-effect", {"with comments": [acc, built[:8], why], "without": [acc0, built0[:8], why0]}))
+    oc = real["outcome"]
+    if oc[0] == "ok":
+        want = [(type(o).__name__, k) for k, o in oc[2].items() if hasattr(type(o), "_slots")]
+        if not acc or sorted(built) != sorted(want):
+            bad.append(("entry-point-differs-from-helpers", {"main": [acc, built[:8], why], "helpers": ["accepted", want[:8]]}))
+    elif acc and oc[0] in ("err", "plate-err") and not (oc[0] == "err" and oc[1] and oc[1][-1][0] == "crash"):
+        bad.append(("entry-point-differs-from-helpers", {"main": ["accepted", built[:8]], "helpers": summar(oc)}))
+    return bad
 
 
 def py_label(o):
@@ -719,6 +792,13 @@ def run(ck: Check):
         for spec, tag in small_family():
             real = compare_case(ck, drv, U, spec, tag, "small", [])
             oracle(ck, U, spec, real, tag, found)
+        # ---- comments x plates through the public entry point
+        for spec, tag in ignored_plate_family():
+            real = compare_case(ck, drv, U, spec, tag, "ignored-plate", [])
+            oracle(ck, U, spec, real, tag, found)
+            for sig, detail in entry_point_violations(U, spec, real):
+                found.append((sig, spec, tag, detail))
+            ck.bucket("entry-point-checked")
         # ---- generated streams
         for i in range(260 * n_scale):
             g = c13_gen.SpecGen(ck.rng, classes, sigs, real=(i % 3 != 0), max_depth=ck.rng.choice([2, 3, 4, 6]),
@@ -742,6 +822,13 @@ def run(ck: Check):
                 real3 = real_pipeline(U, strip_comments(copy.deepcopy(commented)))
                 if not same_outcome(real, real2) or not same_outcome(real3, real2):
                     found.append(("comment-has-effect", commented, None, [summar(real["outcome"]), summar(real2["outcome"])]))
+                for sig, detail in entry_point_violations(U, commented, real2):
+                    found.append((sig, commented, None, detail))
+                ck.bucket("entry-point-checked")
+            elif mode == "plates":
+                for sig, detail in entry_point_violations(U, spec, real):
+                    found.append((sig, spec, None, detail))
+                ck.bucket("entry-point-checked")
         # ---- the specifications the CLI emits (another construction route): loaded as torchtree does, same predicates
         cli_route(ck, found)
         # ---- json_factory helpers (implementation only)
@@ -851,6 +938,37 @@ def value_type_family():
                          dist("d", copy.deepcopy(y), {"loc": "m", "scale": 1.0})], None))
             out.append(([copy.deepcopy(m), {"id": "c", "type": "CatParameter", "parameters": ["m", copy.deepcopy(s2)]},
                          dist("d", copy.deepcopy(y), {"loc": 0.0, "scale": "m"})], None))
+    return out
+
+
+def ignored_plate_family():
+    """the two pre-passes INTERACT: a Plate that is itself a comment (marked ignore, under an underscore key, inside an
+    ignored object) must never be expanded - its clones would exist, collide with ids defined by hand, or be run; an ignore
+    flag / underscore key INSIDE a plate's template applies to every clone; plates that are not comments expand as ever"""
+    out = []
+    leaf = lambda i: {"id": i, "type": "VLeaf"}  # noqa: E731
+
+    def plate(ids, rng_="0:2", var=None, **kw):
+        p = dict({"type": "Plate", "range": rng_, "object": {"id": ids, "type": "VLeaf"}}, **kw)
+        if var:
+            p["var"] = var
+        return p
+    for flag in (True, 1, "yes"):
+        out.append(([leaf("a"), plate("p.*", ignore=flag), leaf("p.0"), {"id": "h", "type": "VPair", "a": "a", "b": "p.0"}], None))
+        out.append(([[plate("p.${i}", var="i", ignore=flag), leaf("p.0")], leaf("p.1")], None))
+    out.append(([leaf("a"), plate("p.*", ignore=False), leaf("q")], None))                      # falsy flag: a plate like any other
+    out.append(([leaf("a"), plate("p.*", ignore=0), leaf("p.0")], ("dup-small", True, {})))     # … so its clone collides
+    out.append(([leaf("a"), plate("p.*"), {"id": "h", "type": "VOne", "x": "p.{0:2}"}], None))
+    out.append(([{"id": "m", "type": "VMany", "xs": [leaf("c"), plate("p.*", ignore=True)], "_k": [plate("u.*")]}, leaf("p.0"), leaf("u.0")], None))
+    out.append(([{"id": "m", "type": "VMany", "xs": [leaf("c")], "_plates": [plate("c*", "0:1")]}], None))
+    out.append(([{"id": "z", "type": "VLeaf", "ignore": True, "inner": [plate("q.*")]}, leaf("q.0")], None))
+    out.append(([{"id": "m", "type": "VMany", "xs": [plate("p.*", ignore=True), plate("p.*")]}], None))
+    # comments INSIDE the template: stripped from every clone
+    out.append(([[{"type": "Plate", "range": "0:2", "object": {"id": "p.*", "type": "VOne", "x": {"id": "c.*", "type": "VLeaf"},
+                                                               "_note": {"id": "c.*", "type": "VLeaf"}}}]], None))
+    out.append(([[{"type": "Plate", "range": "0:2", "object": {"id": "p.*", "type": "VMany",
+                                                               "xs": [{"id": "k.*", "type": "VLeaf"}, {"id": "k.*", "type": "VLeaf", "ignore": True}]}}]], None))
+    out.append(([[{"type": "Plate", "range": "0:2", "object": {"id": "p.*", "type": "VLeaf", "ignore": True}}, leaf("p.0")]], None))
     return out
 
 
@@ -1141,6 +1259,8 @@ def report(ck, U, ok, broken, found, note):
                                                     "`already exists`",
                 "holder-of-unregistered-id": "a reachable object carries an id the registry does not know",
                 "comment-has-effect": "underscore keys / ignored objects change what is loaded",
+                "entry-point-differs-from-helpers": "torchtree.torchtree.main builds something else than remove_comments -> "
+                                                    "expand_plates -> process_objects on the same specification",
             }.get(sig, f"malformed specification accepted ({sig})")
             if sig.startswith("order:"):
                 now = []
@@ -1198,8 +1318,14 @@ def make_pred(U, sig):
         return pred4
     if sig == "comment-has-effect":
         def pred2(spec):
-            return not same_outcome(real_pipeline(U, spec), real_pipeline(U, strip_comments(copy.deepcopy(spec))))
+            if not same_outcome(real_pipeline(U, spec), real_pipeline(U, strip_comments(copy.deepcopy(spec)))):
+                return True
+            return isinstance(spec, list) and any(s_ == sig for s_, _ in entry_point_violations(U, spec, real_pipeline(U, spec)))
         return pred2
+    if sig == "entry-point-differs-from-helpers":
+        def pred5(spec):
+            return isinstance(spec, list) and any(s_ == sig for s_, _ in entry_point_violations(U, spec, real_pipeline(U, spec)))
+        return pred5
     return None
 
 
@@ -1263,7 +1389,16 @@ def replay(path: str) -> int:
         print("without the comments:", json.dumps(base))
         print("  loads as  :", summar(real0["outcome"]))
         print("with them   :", summar(oc), "" if same else "  VIOLATES: comments have an effect")
-        return 0 if same else 1
+        ep = entry_point_violations(U, spec, real) if isinstance(spec, list) else []
+        for sig_, d in ep:
+            print("  VIOLATES (through torchtree.torchtree.main):", sig_, json.dumps(d)[:400])
+        return 0 if same and not ep else 1
+    if obj.get("signature", "").endswith("entry-point-differs-from-helpers"):
+        ep = entry_point_violations(U, spec, real)
+        for sig_, d in ep:
+            print("  VIOLATES (through torchtree.torchtree.main):", sig_, json.dumps(d)[:400])
+        print("helpers:", summar(oc))
+        return 1 if ep else 0
     if oc[0] == "ok":
         bad = sharing_violations(oc[1], oc[2])
         print("accepted; registry keys:", list(oc[2].keys()))
